@@ -17,9 +17,10 @@ RULE = ("shape triples (m,n,k) are enumerated exhaustively (quick: 1..4, thoroug
         "model answers ok or err; it is counted once per distinct (operation, spelling, operand shapes, outcome).")
 CORR_ONLY = ["Vector::Norm / Matrix::Norm: the model gives the exact sum of squares; the square root is compared "
              "through its square (DESIGN.md C04 [T2])"]
-ASSUMPTIONS = ["IEEE-754 double arithmetic with round-to-nearest: |fl(x op y) - (x op y)| <= 2^-53 |x op y| "
+ASSUMPTIONS = ["subnormal family: gradual underflow (one rounding costs at most 2^-1075 absolutely); products and sums stay below 1e301",
+               "IEEE-754 double arithmetic with round-to-nearest: |fl(x op y) - (x op y)| <= 2^-53 |x op y| "
                "(tolerances are the standard forward bounds (n+2)*2^-53*sum|terms| of a length-n accumulation)",
-               "requests keep |entries| within 1e-21..1e21 so that no product overflows or becomes subnormal"]
+               "the mixed-magnitude family keeps |entries| within 1e-21..1e21 (no overflow, no underflow)"]
 TRUSTED = ["props/c04.py `pyref`: the property's definitions written a second time in Python (exact Fractions)"]
 
 Z = Fraction(0)
@@ -43,7 +44,24 @@ class Rows(list):
         self.ncols = ncols
 
 
+DBL_MIN = 2.2250738585072014e-308
+SUB_SMALL = [5e-324, 1e-310, 1.5e-320, 2.2250738585072009e-308, DBL_MIN, 2.225073858507202e-308, 1e-300, 3e-309, 7e-315]
+SUB_BIG = [1e300, 1e290, 3e299, 1.0, 0.5, 3.0, 1e-5, 1e150]
+
+
 def entry(rng, fam):
+    if fam == "sbL":      # subnormal / smallest-normal-boundary magnitudes, zeros, units
+        c = rng.random()
+        if c < 0.12:
+            return 0.0
+        if c < 0.22:
+            return rng.choice([1.0, -1.0])
+        return rng.choice([-1.0, 1.0]) * rng.choice(SUB_SMALL)
+    if fam == "sbR":      # huge partners (products with the above are normal and do not overflow)
+        c = rng.random()
+        if c < 0.1:
+            return 0.0
+        return rng.choice([-1.0, 1.0]) * rng.choice(SUB_BIG)
     if fam == "dy":
         c = rng.random()
         if c < 0.12:
@@ -316,6 +334,69 @@ def pred_block(R):
             seen.add(r); R.append(r)
 
 
+
+def subnormal_block(R, rng, thorough):
+    """every product / sum identity with non-zero subnormal and smallest-normal entries, mixed with huge partners so
+    that the products are normal; structured (identity, unit diagonal) partners as well"""
+    shapes = [(m, n, k) for m in (1, 2, 3) for n in (1, 2, 3) for k in (1, 2, 3)] if thorough else \
+             [(1, 1, 1), (1, 2, 1), (2, 1, 2), (2, 2, 2), (2, 3, 1), (3, 2, 3), (1, 3, 2), (3, 3, 3), (2, 2, 1), (3, 1, 1)]
+    shapes += [(rng.randint(1, 6), rng.randint(1, 6), rng.randint(1, 6)) for _ in range(20 if thorough else 6)]
+    for (m, n, k) in shapes:
+        for (fa, fb) in (("sbL", "sbR"), ("sbR", "sbL"), ("sbL", "sbL")):
+            A = rmat(rng, m, n, fa); B = rmat(rng, n, k, fb)
+            for sp in "mo":
+                R.append("c04.mul %s %s %s" % (sp, mat_tok(A), mat_tok(B)))
+            R.append("c04.laws %s %s" % (mat_tok(A), mat_tok(B)))
+            v = rvec(rng, n, fb); w = rvec(rng, m, fb)
+            for sp in "mo":
+                R.append("c04.matvec %s %s %s" % (sp, mat_tok(A), lst(v)))
+                R.append("c04.dot %s %s %s" % (sp, lst(rvec(rng, n, fa)), lst(v)))
+            R.append("c04.mul m %s %s" % (mat_tok(A), mat_tok(Rows([[x] for x in v], 1))))     # A * column(v)
+            R.append("c04.vecmat %s %s" % (lst(w), mat_tok(A)))
+            R.append("c04.mul m %s %s" % (mat_tok(Rows([w], m)), mat_tok(A)))                   # row(w) * A
+            R.append("c04.outer %s %s" % (lst(rvec(rng, m, fa)), lst(rvec(rng, k, fb))))
+            if fa != fb:
+                s_ = entry(rng, fb)
+                for sp in "mof":
+                    R.append("c04.smul %s %s %s" % (sp, mat_tok(A), hx(s_)))
+                for sp in "of":
+                    R.append("c04.vsmul %s %s %s" % (sp, lst(rvec(rng, n, fa)), hx(s_)))
+        A = rmat(rng, m, n, "sbL"); A2 = rmat(rng, m, n, rng.choice(["sbL", "dy"]))
+        for sp in "moa":
+            R.append("c04.plus %s %s %s" % (sp, mat_tok(A), mat_tok(A2)))
+            R.append("c04.minus %s %s %s" % (sp, mat_tok(A), mat_tok(A2)))
+        for sp in "oa":
+            R.append("c04.vadd %s %s %s" % (sp, lst(rvec(rng, n, "sbL")), lst(rvec(rng, n, "sbL"))))
+        R.append("c04.transpose " + mat_tok(A)); R.append("c04.trace " + mat_tok(rmat(rng, n, n, "sbL")))
+        for kind in ("identity", "unit_diag", "perm", "diag"):
+            S = struct_mat(rng, n, n, kind, "sbR" if kind != "identity" else "dy")
+            for sp in "mo":
+                R.append("c04.mul %s %s %s" % (sp, mat_tok(A), mat_tok(S)))
+            R.append("c04.laws %s %s" % (mat_tok(A), mat_tok(S)))
+            R.append("c04.mul m %s %s" % (mat_tok(struct_mat(rng, m, m, kind, "sbL" if kind != "identity" else "dy")), mat_tok(rmat(rng, m, n, "sbR"))))
+
+
+def chain_block(R, rng, thorough):
+    """chained compound assignment (x op b) op c ..., all sign patterns, Matrix and Vector; some with a non-conformable step"""
+    import itertools as _it
+    pats = ["".join(p) for L in (1, 2, 3) for p in _it.product("+-", repeat=L)]
+    for rep in range(4 if thorough else 1):
+        for sg in pats:
+            for fam in ("dy", "mx"):
+                m, n = rng.randint(1, 4), rng.randint(1, 4)
+                X = rmat(rng, m, n, fam); bs = [rmat(rng, m, n, fam) for _ in sg]
+                R.append("c04.mchain %s %s %s" % (sg, mat_tok(X), " ".join(mat_tok(b) for b in bs)))
+                k = rng.randint(1, 6)
+                x = rvec(rng, k, fam); vs = [rvec(rng, k, fam) for _ in sg]
+                R.append("c04.vchain %s %s %s" % (sg, lst(x), " ".join(lst(v) for v in vs)))
+            if len(sg) >= 2:      # the last step does not conform
+                m, n = rng.randint(1, 3), rng.randint(1, 3)
+                X = rmat(rng, m, n, "dy"); bs = [rmat(rng, m, n, "dy") for _ in sg[:-1]] + [rmat(rng, n + 1, m, "dy")]
+                R.append("c04.mchain %s %s %s" % (sg, mat_tok(X), " ".join(mat_tok(b) for b in bs)))
+                x = rvec(rng, 3, "dy"); vs = [rvec(rng, 3, "dy") for _ in sg[:-1]] + [rvec(rng, 2, "dy")]
+                R.append("c04.vchain %s %s %s" % (sg, lst(x), " ".join(lst(v) for v in vs)))
+
+
 def guard_block(R, rng, m, n, fam):
     """class A: conformable and non-conformable partners of an m x n matrix"""
     A = rmat(rng, m, n, fam); a = mat_tok(A)
@@ -419,6 +500,8 @@ def generate(tier, seed, ctx):
         R.append(gen_mhist(rng, rng.randint(3, 12)))
     R += triple_corpus()
     struct_block(R, rng, thorough)
+    subnormal_block(R, rng, thorough)
+    chain_block(R, rng, thorough)
     pred_block(R)
     # the shortest stale-state histories as a fixed corpus
     R.append("c04.vhist 2 0x1.8p+1 0x1p+2 3 N - 2 0x1.8p+1 0x0p+0 N")
@@ -502,6 +585,26 @@ def pyref(op, a):
             return ERR
         sg = 1 if op == "c04.plus" else -1
         return rM(r, k, lambda i, j: (A[i][j] + sg * B[i][j], abs(A[i][j]) + abs(B[i][j])), 1, sp != "a")
+    if op in ("c04.mchain", "c04.vchain"):
+        sg = c.tok()
+        if op == "c04.mchain":
+            (r, k, X) = c.mat(); bs = [c.mat() for _ in sg]
+            if any((b[0], b[1]) != (r, k) for b in bs):
+                return ERR
+            flat = lambda M: [x for row in M for x in row]
+            x0 = flat(X); ops_ = [flat(b[2]) for b in bs]; hdr = [("int", r), ("int", k)]
+        else:
+            x0 = c.vec(); ops_ = [c.vec() for _ in sg]
+            if any(len(b) != len(x0) for b in ops_):
+                return ERR
+            hdr = [("int", len(x0))]
+        def run(nsteps):
+            val = list(x0); sc = [abs(x) for x in x0]
+            for ch, b in list(zip(sg, ops_))[:nsteps]:
+                val = [v + (y if ch == "+" else -y) for v, y in zip(val, b)]
+                sc = [s_ + abs(y) for s_, y in zip(sc, b)]
+            return hdr + list(zip(val, sc))
+        return V(run(len(sg)) + run(1) + run(1), len(sg))
     if op == "c04.mul":
         c.tok(); (r, k, A), (r2, k2, B) = c.mat(), c.mat()
         if k != r2:
@@ -1192,6 +1295,7 @@ def check_hist(ref, ti, slack=4):
 
 LAW_NAMES = ["transpose(A*B) == transpose(B)*transpose(A)", "A*I == A", "I*A == A", "transpose(transpose(A)) == A"]
 
+CHAIN_OPS = ("c04.mchain", "c04.vchain")
 INT_HEADER = {"c04.plus": 2, "c04.minus": 2, "c04.mul": 2, "c04.smul": 2, "c04.sdiv": 2, "c04.transpose": 2,
               "c04.subm": 2, "c04.delrow": 2, "c04.delcol": 2, "c04.identity": 2, "c04.diag": 2, "c04.const": 2,
               "c04.ctor": 2, "c04.block": 2, "c04.outer": 2, "c04.matvec": 1, "c04.vecmat": 1, "c04.retrow": 1,
@@ -1201,6 +1305,16 @@ SPELLED = {"c04.plus", "c04.minus", "c04.mul", "c04.smul", "c04.sdiv", "c04.matv
 SP_NAME = {("c04.plus", "m"): "Plus", ("c04.plus", "o"): "operator+", ("c04.plus", "a"): "operator+=",
            ("c04.minus", "m"): "Minus", ("c04.minus", "o"): "operator-", ("c04.minus", "a"): "operator-=",
            ("c04.mul", "m"): "Product(Matrix)", ("c04.mul", "o"): "operator*(Matrix)"}
+
+
+def inputs_tiny(a):
+    """some non-zero numeric input (or a product of two inputs) can fall into the subnormal range"""
+    for t in a:
+        if "x" in t or "X" in t:
+            v = abs(float.fromhex(t))
+            if 0 < v < 1e-150:
+                return True
+    return False
 
 
 def inputs_exact(a):
@@ -1213,8 +1327,12 @@ def inputs_exact(a):
     return True
 
 
-def check_values(op, ref, ti, exact):
-    """implementation tokens against the reference; returns None or a description"""
+TINY = Fraction(1, 2 ** 1074)       # spacing of the subnormal doubles
+
+
+def check_values(op, ref, ti, exact, tiny=False):
+    """implementation tokens against the reference; returns None or a description.  tiny: some operand lies in the
+    subnormal range, where one rounding costs up to half a subnormal spacing instead of a relative 2^-53"""
     _, items, K = ref
     if len(ti) != len(items):
         return "shape of the result: %d values instead of %d" % (len(ti), len(items))
@@ -1226,7 +1344,7 @@ def check_values(op, ref, ti, exact):
                 return "integer %d of the result is %s, expected %d" % (idx, t, it[1])
         else:
             v = fl(t)
-            if not close(v, it[0], it[1], 2 * K):
+            if not close(v, it[0], it[1], 2 * K, atol=(2 * K + 2) * TINY if tiny else 0):
                 return "value %d is %r, definition gives %r" % (idx, v, float(it[0]))
     return None
 
@@ -1246,6 +1364,8 @@ def check_sq(ref, ti, mult=1):
 def model_items(op, tm):
     """model answer tokens -> same item layout as pyref (ints for the header, Fractions after)"""
     h = INT_HEADER.get(op, 0)
+    if op in CHAIN_OPS:
+        return None
     if op in ("c04.preds", "c04.veq", "c04.meq", "c04.laws"):
         return [("int", int(t)) for t in tm]
     return [("int", int(t)) for t in tm[:h]] + [(fr(t), None) for t in tm[h:]]
@@ -1291,12 +1411,14 @@ def compare(rq, impl, model, ctx):
                 out.append(fail("corr", clause_of(op, a) + ": model differs from the definition", ""))
         else:
             mi = model_items(op, tm)
+            if mi is None:      # layout follows the reference (several results in one answer)
+                mi = [("int", int(t)) if it[0] == "int" else (fr(t), None) for t, it in zip(tm, ref[1])] if len(tm) == len(ref[1]) else []
             if len(mi) != len(ref[1]) or any(x[0] != y[0] if y[0] != "int" else x != y for x, y in zip(mi, ref[1])):
                 out.append(fail("corr", clause_of(op, a) + ": model differs from the definition", ""))
             elif both and not po:
                 # class B: implementation against the model (same tolerance)
                 exact = inputs_exact(a)
-                d = check_values(op, ("ok", [(m[0], r[1]) if m[0] != "int" else m for m, r in zip(mi, ref[1])], ref[2]), ti, exact)
+                d = check_values(op, ("ok", [(m[0], r[1]) if m[0] != "int" else m for m, r in zip(mi, ref[1])], ref[2]), ti, exact, inputs_tiny(a))
                 if d:
                     out.append(fail("corr", clause_of(op, a) + ": implementation differs from the model", d))
     if po:
@@ -1332,8 +1454,10 @@ def oracle(op, a, impl, ref):
         if len(ti) != 4 or bad:
             return ("algebraic law fails exactly: " + "; ".join(bad), "")
         return None
-    d = check_values(op, ref, ti, inputs_exact(a))
+    d = check_values(op, ref, ti, inputs_exact(a), inputs_tiny(a))
     if d:
+        if op in CHAIN_OPS:
+            return ("chained compound assignment does not leave the sequential result in the object", d)
         return ("result differs from the definition", d)
     return None
 
